@@ -83,12 +83,25 @@ func evalGo(e SExpr, bind map[string]STerm) (obs evalObs) {
 		vals[datalog.Variable(syms.Insert(k))] = &t
 	}
 	res, err := de.Evaluate(vals, syms)
+	// evaluation is a function: the values bound to the variables are unchanged afterwards, and
+	// evaluating the same expression object again gives the same result
+	for k, v := range bind {
+		if after := termFromDatalog(syms, *vals[datalog.Variable(syms.Insert(k))]); after.String() != v.String() {
+			c06Mutations = append(c06Mutations, map[string]interface{}{"expression": exprString(e), "variable": k, "bound_to": v.String(), "after_evaluation": after.String()})
+		}
+	}
+	if res2, err2 := de.Evaluate(vals, syms); (err == nil) != (err2 == nil) || (err == nil && !res.Equal(res2)) {
+		c06Mutations = append(c06Mutations, map[string]interface{}{"expression": exprString(e), "first_evaluation": fmt.Sprint(res, err), "second_evaluation": fmt.Sprint(res2, err2)})
+	}
 	if err != nil {
 		return evalObs{Err: exprErrClass(err)}
 	}
 	st := termFromDatalog(syms, res)
 	return evalObs{Val: &st}
 }
+
+// operands or bound values changed by an evaluation (reported at the end of the run)
+var c06Mutations []map[string]interface{}
 
 // ---------- independent reference for binary operators (from the property's table) ----------
 
@@ -652,6 +665,10 @@ func runC06(res *Result, rng *RNG, tier string, outDir string) {
 	res.Extra["mined_literals"] = minedIntLiterals()
 	res.CaseDescs = append(res.CaseDescs, exprDescs...)
 	res.CaseDescs = append(res.CaseDescs, intDescs...)
+	for _, m := range c06Mutations {
+		res.Violate("evaluation-changes-its-operands", "evaluating an expression changed a value it was given (or a second evaluation of the same expression object differs from the first)", m)
+	}
+	res.Extra["operand_mutation_checks"] = "every evaluation: bound values and direct operands compared before/after; every tree evaluated twice"
 	res.Exhaustive = false
 	res.Extra["panel_size"] = len(panel)
 	res.Extra["sweep_pairs_per_operator"] = len(panel) * len(panel)
@@ -761,7 +778,11 @@ func evalBinaryDirect(op int, l, r STerm) (obs evalObs) {
 		}
 	}()
 	syms := &datalog.SymbolTable{}
-	res, err := dBin[op].Eval(l.toDatalog(syms), r.toDatalog(syms), syms)
+	dl, dr := l.toDatalog(syms), r.toDatalog(syms)
+	res, err := dBin[op].Eval(dl, dr, syms)
+	if al, ar := termFromDatalog(syms, dl), termFromDatalog(syms, dr); al.String() != l.String() || ar.String() != r.String() {
+		c06Mutations = append(c06Mutations, map[string]interface{}{"operator": binNames[op], "left": l.String(), "right": r.String(), "left_after": al.String(), "right_after": ar.String()})
+	}
 	if err != nil {
 		return evalObs{Err: exprErrClass(err)}
 	}
